@@ -648,6 +648,17 @@ func RunLayer2(r *core.Run) {
 		chunks = append(chunks, chunk{a, b})
 		a = b + 1
 	}
+	if only := os.Getenv("C06L2_ONLY"); only != "" {
+		// development / mutation runs: restrict to the targets whose name contains the given text
+		var keep []chunk
+		for _, c := range chunks {
+			if strings.Contains(targets[cases[c.a].tgt].name, only) {
+				keep = append(keep, c)
+			}
+		}
+		chunks = keep
+		r.Cap("layer 2 restricted to targets matching C06L2_ONLY=" + only)
+	}
 	sort.SliceStable(chunks, func(i, j int) bool {
 		return targets[cases[chunks[i].a].tgt].heavy && !targets[cases[chunks[j].a].tgt].heavy
 	})
@@ -861,7 +872,7 @@ func RunLayer2(r *core.Run) {
 		}
 		r.Cap("layer 2: " + strings.Join(p.infra, " | "))
 	}
-	if executed < len(cases) {
+	if executed < len(cases) && os.Getenv("C06L2_ONLY") == "" {
 		r.Cap(fmt.Sprintf("layer 2: %d of %d enumerated cases executed", executed, len(cases)))
 	}
 }
